@@ -3,7 +3,7 @@ UNIT = {
  'slices': [s('read_state_data', 'colvarbias_abf.cpp', r'template <typename IST> IST &colvarbias_abf::read_state_data_template_\(IST &is\)')],
  'assumed': ['the stream, read_state_data_key, the grids\' read_raw / copy_grid and set_div are logging stubs whose success flags are arbitrary'],
  'tasks': [
-  {'id': 'read_state_data', 'properties': ['C14', 'C03'], 'slices': ['read_state_data'], 'harness': 'h_read_state_data', 'enforce': 'k_read_state_data',
+  {'id': 'read_state_data', 'properties': ['C14', 'C03', 'C16'], 'slices': ['read_state_data'], 'harness': 'h_read_state_data', 'enforce': 'k_read_state_data',
    'replace': ['k_key', 'k_read_raw', 'k_copy_grid', 'k_set_div'], 'unwind': 20,
    'mutants': [('  if (shared_on) {\n    last_gradients->copy_grid', '  if (shared_on && shared_freq) {\n    last_gradients->copy_grid'), ('last_samples->copy_grid(*samples);', 'last_samples->copy_grid(*local_samples);'),
                ('if (! read_state_data_key(is, "local_gradient")) {\n      return is;\n    }', ''), ('shared_last_step = cvm::step_absolute();', 'shared_last_step = cvm::step_relative();')]},
